@@ -429,6 +429,10 @@ CLAIM = {
             "`i != 0 and i % 1440 == 0`, final sample after terminate + flush) is decided by trace rules in both simulators and the "
             "futures equity sample is wallet + open PnL symbolically (leverage-free); the spot sample, with Strategy.portfolio_value "
             "interpreted for two routes sharing the wallet, is cash + value of all positions + reserved value of the active entry "
-            "orders of every route. Ratio helpers default to a 365-day year. Not decided: the ratio formulas on the pandas return series.",
+            "orders of every route. Ratio helpers default to a 365-day year, and max_drawdown / sharpe / sortino / cagr / calmar / omega are interpreted "
+            "on the series [NaN, r1..rN] that metrics.trades builds (pandas Series modelled) for every loss / flat / gain pattern of "
+            "2-3 returns and must equal their textbook definitions (starting balance a peak, N returns in every denominator). The "
+            "daily sample count and timing are decided by interpreting both time loops for concrete lengths / steps (incl. steps of "
+            "one and several days). Not decided: longer return series, degenerate conventions.",
     "note": "Trusted: pandas/numpy model for the used operations; interpreter semantics.",
 }
